@@ -94,6 +94,9 @@ def rule_symmetry(repo, rule):
     W = sorted({loc for _s, loc, _v in writes})
     # the token
     ret = [n for n in ast.walk(ag.node) if isinstance(n, ast.Return) and n.value is not None]
+    # several exits may hand out the token, as long as it is the same one (`return bak` on the public and the secret path)
+    if len(ret) > 1 and len({norm(r.value) for r in ret}) == 1 and isinstance(ret[0].value, ast.Name):
+        ret = ret[:1]
     tokval = ret[0].value if len(ret) == 1 else None
     tokstmt = None
     if isinstance(tokval, ast.Name):
